@@ -396,8 +396,9 @@ def check_c01(exe, tier, seed, verdict):
     if r2.violated:
         verdict.violation("C01:model", {"tlc": r2.out[-3000:]}, "TLC: Read(tree) differs from UapiRef(tree)\n" + r2.out[-1500:])
     if tier == "thorough":
-        # (three drop-ins per tree over the nine-name pool; with all eleven names the export no longer fits into memory)
-        r2b, recs2b, total2b = tree_export(3, [1, 2, 3, 4, 5, 6, 7, 8, 9], 3, shapes)
+        # (three drop-ins per tree over the nine-name pool, every fourth tree exported: TLC checks all of them, the replay of
+        # 2.5 million trees with all their expectations no longer fits into memory next to the other checks)
+        r2b, recs2b, total2b = tree_export(3, [1, 2, 3, 4, 5, 6, 7, 8, 9], 3, shapes, sample=4, seed=seed)
         if r2b.violated:
             verdict.violation("C01:model", {"tlc": r2b.out[-3000:]}, "TLC: Read(tree) differs from UapiRef(tree)\n" + r2b.out[-1500:])
         recs2 = recs2 + recs2b
